@@ -266,3 +266,73 @@ def all_partonic_channel_classes():
             if isinstance(o, type) and issubclass(o, PartonicChannel) and o.__module__ == mod.__name__:
                 out.append(o)
     return out, errors
+
+
+# ---------------------------------------------------------------------------------------
+class WStub:
+    """Contract stub for CouplingConstants.get_weight / get_fl11_weight: uninterpreted
+    w(|pid|, type, mask); honours the nc_pos_charge early return of the real contract
+    (weight = [|pid| = q] * w) so that restricted runs can be compared with unrestricted ones."""
+
+    def __init__(self, sy, process, pid, pos_charge=None):
+        self.sy = sy
+        self.obs_config = {"process": process, "projectilePID": pid, "nc_pos_charge": pos_charge}
+        self.bad_Q2 = False
+        self.pos_pid = None if pos_charge in (None, "all") else 1 + QUARK_NAMES.index(pos_charge[0])
+
+    def get_weight(self, q, Q2, ct, cc_mask=None):
+        if Q2 is not self.sy.Q2:
+            self.bad_Q2 = True
+        if self.obs_config["process"] != "CC" and self.pos_pid is not None and abs(q) != self.pos_pid:
+            return 0.0
+        return self.sy.U("w", int(abs(q)), str(ct), str(cc_mask))
+
+    def get_fl11_weight(self, q, Q2, nf, ct):
+        if Q2 is not self.sy.Q2:
+            self.bad_Q2 = True
+        if self.obs_config["process"] == "CC":
+            return 0.0
+        if self.pos_pid is not None and abs(q) != self.pos_pid:
+            return 0.0
+        return self.sy.U("w11", int(abs(q)), int(nf), str(ct))
+
+
+def coeff_id(coeff):
+    """Identity of a coefficient-function object: class + the constructor data it was given.
+    (Coefficient classes read only x, Q2, nf, masses, variation flag -- checked under C07.)"""
+    d = []
+    for k in ("nf", "m2hq", "m1sq", "m2sq", "n3lo_cf_variation"):
+        if k in coeff.__dict__:
+            v = coeff.__dict__[k]
+            d.append((k, repr(v)))
+    return (type(coeff).__module__.replace("yadism.coefficient_functions.", ""), type(coeff).__qualname__, tuple(d))
+
+
+def collect(sy, cfg, kind, flavor, nf, what="collect_elems", x=None):
+    """Run the REAL Combiner on a (Fake)ESF with nf_default replaced by its contract value."""
+    import yadism.coefficient_functions as cf
+    import yadism.coefficient_functions.partonic_channel as pcmod
+    import yadism.coefficient_functions.heavy.partonic_channel as hpc
+    import yadism.coefficient_functions.intrinsic.partonic_channel as ipc
+    import yadism.coefficient_functions.asy.partonic_channel as apc
+    from pvc.stubs import rebind, np_shim_for
+
+    esf = FakeESF(sy.x if x is None else x, sy.Q2, obs_name(kind, flavor), cfg)
+    shim = [] if sy.is_numeric else np_shim_for(pcmod, hpc, ipc, apc, cf)
+    with rebind(*shim, (cf, "nf_default", lambda Q2, thr: nf)):
+        comb = cf.Combiner(esf)
+        if what == "collect":
+            comps = comb.collect()
+            return [k for c in comps for k in c], comb
+        return comb.collect_elems(), comb
+
+
+def kernel_view(kernels):
+    """Formal sum  sum_k partons_k (x) coeff-id_k  as a map (coeff-id, orders) -> {pid: weight}."""
+    view = {}
+    for k in kernels:
+        key = (coeff_id(k.coeff), k.min_order, k.max_order)
+        d = view.setdefault(key, {})
+        for p, w in k.partons.items():
+            d[p] = d.get(p, 0) + w
+    return view
